@@ -3,6 +3,31 @@
 import json, os
 V = '/verif'
 CLAIMED = {
+ 'C01': dict(
+   level='other', design='DESIGN.md §5 C01',
+   technique='static analysis: must-pass-through of the holding/delta addition before every credit save (walked over the call chain), append-count linear forms of the emitter vs destination guards, term identity of debited/shipped/credited quantity, load-modify-save pairing, credit-or-shipment cut after the debit with cross-function path correlation',
+   text='Six structural necessary conditions of conservation are decided for all paths: credits add the existing holding (or the delta) before saving; the destination side accepts exactly the argument count the sender emits and the announced count is the number of entries; the quantity debited, set on the shipped entry and credited is one term; loaded accounts that are modified are saved; after the debit every successful path credits locally or ships. The read-key = write-key clause (R2) is a KNOWN FINDING on this tree (token-id||nonce aliasing, only partly repairable). The sums over histories are not decided.',
+   note='Trusted: go/types + go/ssa; math/big semantics; A-deps; A-protomsg. One known finding listed in known_findings.json.'),
+ 'C02': dict(
+   level='other', design='DESIGN.md §5 C02',
+   technique='static analysis: exact-guard dominance for big.Int Sub/Add on balances with versioned operand terms, direction/amount classification of Value mutations per entry point against T-REG, cut of the wipe delete by the Frozen test',
+   text='Every subtraction from a balance is dominated by exactly Cmp(minuend, subtrahend) >= 0 on the same versions of both operands (strict guards that reject the exact balance are reported too); the signed Add of the shared helper is followed by exactly Cmp(Value,0) >= 0; per registered name the Value mutations have the table\'s direction with amounts decoded from the arguments; supply-neutral functions never mutate a Value; wipe deletes only under Frozen of the entry read from the same account and key. That the stored number equals old +/- amount is math/big arithmetic and is not decided.',
+   note='Trusted: go/types + go/ssa; math/big; T-REG supply column.'),
+ 'C07': dict(
+   level='other', design='DESIGN.md §5 C07',
+   technique='static analysis: value identity (SSA/term) of counter read, +1, persisted counter, metadata nonce, return datum and log topic; key/account provenance of counter reads and writes; success-return cuts by the counter write, the zeroing and the role removal; message content extraction',
+   text='Create uses read+1 everywhere (one value), persists it under the key it read, on every successful path, and treats a failed read as an error; the hand-over zeroes the old counter and strips the role on every successful path, ships / writes the value it read, and the next owner installs the shipped number and the role. Uniqueness over histories with late or duplicated delivery is not decided.',
+   note='Trusted: go/types + go/ssa; A-deps; single-creator discipline.'),
+ 'C08': dict(
+   level='other', design='DESIGN.md §5 C08',
+   technique='static analysis: field-write ownership per entry point (who may write which metadata field, and with what value shape), provenance of the marshalled entry at credits and shipments, two-edge cut for the hash check, binding table of the created literal',
+   text='Only create, add-URI (append of the given URIs to the same list), update-attributes (replace by the given argument) and the freeze toggles write entry/metadata fields; the entry marshalled for a credit or shipment is the sender\'s / decoded one, never the destination\'s current entry; every NFT credit is cut by {no metadata at destination, equal hashes}; the created literal binds the documented arguments and the royalty bound cuts its save. Byte equality across a protobuf hop is C14\'s tables; chains as executions are not decided.',
+   note='Trusted: go/types + go/ssa; A-deps.'),
+ 'C15': dict(
+   level='other', design='DESIGN.md §5 C15',
+   technique='static analysis: key-layout provenance, writer/reader value-type agreement per key class, positive-value cut before marshalled writes, reader post-condition (known finding), search-before-append structure',
+   text='Writer-side conditions of the representation invariant: key layout, value type per key class on both the writing and the reading side, zero balances deleted rather than stored (with C02 the stored value is positive), create role appended only after a failed search of the same list. The key/metadata-nonce agreement (R4) is a KNOWN FINDING on this tree. The invariant over reachable states as such is not decided.',
+   note='Trusted: go/types + go/ssa; C02-R1, C08-R1; A-deps. One known finding listed in known_findings.json.'),
  'C03': dict(
    level='other', design='DESIGN.md §5 C03',
    technique='static analysis: interprocedural effect enumeration + CFG cut by authority-guard edges (go/ssa), argument binding by canonical terms, table agreement with T-REG',
@@ -84,7 +109,7 @@ for i in range(1, 21):
     pid = 'C%02d' % i
     if pid not in CLAIMED:
         NA[pid] = 'not claimed yet: the static rules designed for it (DESIGN.md §5) are not implemented in this commit'
-NA_OVERRIDE = {}
+NA_OVERRIDE = {}  # every property is claimed for its structural clauses; what each check does not decide is stated in its level text
 NA.update(NA_OVERRIDE)
 checks = []
 for pid in sorted(CLAIMED):
